@@ -549,23 +549,37 @@ def write_if_changed(path: Path, text: str):
 
 
 def main():
+    """Each module is translated independently.  A module that cannot be translated is
+    replaced by a file that does not compile (fail-closed): every proof that depends on it
+    breaks, nothing else does."""
     OUT.mkdir(parents=True, exist_ok=True)
-    try:
-        sim, simfuncs = gen_sim()
-        merges = gen_merges(simfuncs)
-        mem = gen_mem()
-    except Unsupported as e:
-        print(f"TRANSLATION FAILED (tie broken): {e}")
-        return 1
-    except SyntaxError as e:
-        print(f"TRANSLATION FAILED (python syntax): {e}")
-        return 1
-    ch = []
-    ch.append(write_if_changed(OUT / "GSim.v", sim))
-    ch.append(write_if_changed(OUT / "GMerges.v", merges))
-    ch.append(write_if_changed(OUT / "GMem.v", mem))
-    print("translated: GSim.v GMerges.v GMem.v", "(changed)" if any(ch) else "(unchanged)")
-    return 0
+    status = {}
+    simfuncs = {}
+
+    def attempt(name, fn):
+        try:
+            text = fn()
+            status[name] = "ok"
+        except (Unsupported, SyntaxError, FileNotFoundError) as e:
+            status[name] = f"FAILED: {e}"
+            reason = str(e).replace("*)", "* )")
+            text = (f"(* TRANSLATION FAILED (tie broken): {reason} *)\n"
+                    "Definition translation_of_this_module_failed : False := I.\n")
+        write_if_changed(OUT / f"{name}.v", text)
+
+    def sim():
+        text, funcs = gen_sim()
+        simfuncs.update(funcs)
+        return text
+    attempt("GSim", sim)
+    if status["GSim"] == "ok":
+        attempt("GMerges", lambda: gen_merges(simfuncs))
+    else:
+        attempt("GMerges", lambda: (_ for _ in ()).throw(Unsupported("GSim failed")))
+    attempt("GMem", gen_mem)
+    for k, v in status.items():
+        print(f"translate {k}: {v}")
+    return 0 if all(v == "ok" for v in status.values()) else 1
 
 
 if __name__ == "__main__":
